@@ -209,7 +209,7 @@ def enabled(obj, model):
                     add(('sort_by', by, 'explicit-' + form), lambda o, by=by, arg=arg:
                         [(o.sort_by(**{by: arg}), o, same(), _expect(o, rids, list(reversed(cids))))[1:4]])
     # --- append (in place) and concat ---------------------------------------------------------------
-    if max(rids) < 5 and nr <= 3:
+    if max(rids) < 5 and nr <= 3 and set(obj.rdm_descriptors) <= set(RD_ALL) | {'index'}:
         def f_append(o):
             other = _other(o, model, 5)
             fp = fingerprint([other.dissimilarities, other.rdm_descriptors, other.pattern_descriptors])
@@ -285,16 +285,65 @@ def enabled(obj, model):
                 n = R.inverse_permute_rdms(R.permute_rdms(o, np.array(p)))
                 return [(n, same(), _expect(n, rids, cids))]
             add(('permute-inverse', pname), g, 'inverse_permute_rdms')
+    # --- in-place operations change only the object they are called on ----------------------------------
+    # derive a second object, apply an in-place operation to one of the two, the other must still
+    # satisfy the invariant and keep its labelled content (aliasing would be hidden by the deep copies
+    # the search works on, so it is probed here explicitly; no new state is produced)
+    if nc >= 2 and not model['rd_some']:
+        derivs = {
+            'getitem': lambda o: o[0],
+            'subset': lambda o: o.subset('rid', rids[0]),
+            'subsample': lambda o: o.subsample('rid', [rids[-1], rids[0]]),
+            'subset_pattern': lambda o: o.subset_pattern('cid', sorted(set(cids))),
+            'subsample_pattern': lambda o: o.subsample_pattern('cid', sorted(set(cids))),
+            'copy': lambda o: o.copy(),
+            'concat': lambda o: R.concat(o),
+        }
+        inplace = {
+            'reorder': lambda x: x.reorder(list(range(x.n_cond))[::-1]),
+            'sort_by': lambda x: x.sort_by(name='alpha'),
+            # (append requires the appended object to carry the same rdm descriptors)
+            'append': lambda x: x.append(_other(x, model, 5)) if (
+                max(selfdesc.read_ids(x)[0]) < 5 and set(x.rdm_descriptors) <= set(RD_ALL) | {'index'}) else None,
+        }
+
+        def mk_twin(dname, iname, on):
+            def f(o):
+                child = derivs[dname](o)
+                target, other = (child, o) if on == 'derived' else (o, child)
+                fp = fingerprint([other.dissimilarities, selfdesc._strip(other.rdm_descriptors),
+                                  selfdesc._strip(other.pattern_descriptors)])
+                inplace[iname](target)
+                ex = [('other-object-' + k, msg) for k, msg in invariant(other, model)]
+                if not ex and fingerprint([other.dissimilarities, selfdesc._strip(other.rdm_descriptors),
+                                           selfdesc._strip(other.pattern_descriptors)]) != fp:
+                    ex.append(('other-object-changed', '%s on the %s object changed the %s object'
+                               % (iname, on, 'source' if on == 'derived' else 'derived')))
+                return [(None, model, ex)]
+            return f
+        for dname in derivs:
+            for iname in inplace:
+                for on in ('derived', 'source'):
+                    add(('twin', dname, iname, on), mk_twin(dname, iname, on), 'in-place:' + iname)
     # --- from_partials ---------------------------------------------------------------------------------
     if nc >= 3 and len(set(cids)) == nc and nr >= 2 and len(set(rids)) == nr and not model['rd_some']:
-        def mk_fp(all_patterns):
+        def mk_fp(all_patterns, reorder_second=False, all_reversed=False):
             def f(o):
                 # two partial objects: first RDM over all but the last condition, the others over all
                 # but the first; aligned on the unique descriptor 'name'
                 names = list(o.pattern_descriptors['name'])
                 a = o.subset('rid', rids[0]).subset_pattern('name', names[:-1])
                 b = o.subset('rid', rids[1:]).subset_pattern('name', names[1:])
-                kw = {'all_patterns': list(names)} if all_patterns else {}
+                if reorder_second:
+                    # the second partial lists its conditions in another relative order
+                    b = b.copy()
+                    b.reorder(list(range(b.n_cond))[::-1])
+                kw = {}
+                want_c = cids[:-1] + [cids[-1]]
+                if all_patterns:
+                    allp = list(names)[::-1] if all_reversed else list(names)
+                    kw = {'all_patterns': allp}
+                    want_c = list(cids)[::-1] if all_reversed else list(cids)
                 n = CMB.from_partials([a, b], descriptor='name', **kw)
                 nan = set(model['nan'])
                 for c in cids[:-1]:
@@ -303,7 +352,6 @@ def enabled(obj, model):
                     for c in cids[1:]:
                         nan.add((r, min(c, cids[0]), max(c, cids[0])))
                 m = dict(model, nan=frozenset(nan))
-                want_c = cids if all_patterns else (cids[:-1] + [cids[-1]])
                 # conditions are identified through the aligning descriptor; the statement requires
                 # every retained condition to keep all its descriptor values
                 ex = []
@@ -318,6 +366,8 @@ def enabled(obj, model):
             return f
         add(('from_partials', 'union'), mk_fp(False))
         add(('from_partials', 'all_patterns'), mk_fp(True))
+        add(('from_partials', 'union,second-partial-reordered'), mk_fp(False, reorder_second=True))
+        add(('from_partials', 'all_patterns-reversed,second-partial-reordered'), mk_fp(True, True, True))
     return T
 
 
